@@ -62,6 +62,9 @@ inductive Crash where
   /-- the j-th write of the cache file fails with an error and leaves the file as it was: for the file, the ghost and
       everything later this is an invocation that ends just before that write — except that it *returns* an error -/
   | error (j : Nat)
+  /-- the j-th command of the invocation removed the cache (directory and all): the next write of the cache file fails
+      (as `error`), and whatever the invocation did, it is followed by a `removeCache` event -/
+  | removed (j : Nat)
 
 def parseCrash (s : String) : Option Crash :=
   match s.toList with
@@ -71,6 +74,7 @@ def parseCrash (s : String) : Option Crash :=
   | 'T' :: r => (String.ofList r).toNat?.map .torn
   | 'A' :: r => (String.ofList r).toNat?.map .after
   | 'E' :: r => (String.ofList r).toNat?.map .error
+  | 'R' :: r => (String.ofList r).toNat?.map .removed
   | _ => none
 
 def parseTrace (good bad : String) (s : String) : Option (List (Name × Out)) :=
@@ -123,6 +127,8 @@ def crashSteps (s0 : St) (n : Nat) (c : Crash) : Option Nat :=
   | .torn j => tornAt j
   | .before j => (tornAt j).map (· - 1)
   | .error j => (tornAt j).map (· - 1)
+  | .removed j =>
+    (idx.find? fun (_, s) => truncating s.pc && decide ((s.out.filter isRun).length ≥ j)).map (·.1 - 1)
   | .after j => (tornAt j).map (· + 1)
 
 def outStr : Out → String
@@ -173,6 +179,7 @@ def stepCase (o : Obs) (a : Acc) (ev : String) : Option Acc :=
   | "d" :: _ => some a
   -- a side effect of a command (harness only): what it changes reaches the model through the inputs every task SAW (INP)
   | "x" :: _ => some a
+  | "y" :: _ => some a
   | "r" :: _ :: force :: spec :: _ => do   -- a fifth field (`c1`: the process saw one CPU) does not concern the model
     let force := force == "1"
     let a := { a with asked := a.asked || (spec != "-" && !spec.startsWith "E" && !spec.startsWith "F") }
@@ -197,14 +204,18 @@ def stepCase (o : Obs) (a : Acc) (ev : String) : Option Acc :=
     let mexec := joinOr ((s.out.filter isRun).map fun (t, x) => taskStr t ++ ":" ++ (if x == .ranOk then "1" else "0"))
     -- the implementation's observation of this invocation, for the judges
     let itrace ← (if ierr == .done then parseTrace "O" "F" ires else parseTrace "1" "0" iexec)
+    let removed := match cr with | .removed _ => true | _ => false
+    let wEnd := if removed then (runEvent natDigest r.1 .removeCache).1 else r.1
     pure { a with
-      w := r.1, events := a.events ++ [.edit inpF, e],
-      oevents := a.oevents ++ [.edit inpF, .invoke force sel itrace ierr (parseCacheCls icache)],
+      w := wEnd, events := a.events ++ [.edit inpF, e] ++ (if removed then [.removeCache] else []),
+      oevents := a.oevents ++ [.edit inpF, .invoke force sel itrace ierr (parseCacheCls icache)]
+        ++ (if removed then [.removeCache] else []),
       res := a.res ++ [mres], exec := a.exec ++ [mexec],
       err := a.err ++ [match cr, crashAt with
         | .error _, some _ => "other"       -- a write error is reported, not a kill
+        | .removed _, some _ => "other"
         | _, _ => errStr (outcomeOf crashAt s)],
-      cache := a.cache ++ [cacheStr tasks s.disk], k := a.k + 1 }
+      cache := a.cache ++ [cacheStr tasks wEnd.disk], k := a.k + 1 }
   | _ => none
 
 def b2s (b : Bool) : String := if b then "ok" else "FAIL"
@@ -236,7 +247,7 @@ def handle (line : String) : String :=
         let oh := a.oevents
         let v01 := b2s (c01 oh)
         -- an invocation cut short by a write error is no more a completed run than a killed one
-        let cut := o.cr.any fun c => match c with | .error _ => true | _ => false
+        let cut := o.cr.any fun c => match c with | .error _ => true | .removed _ => true | _ => false
         let v02 := if hasCrash oh || cut then "na" else b2s (c02 oh)
         -- a kill that was asked for (a signal sent from inside a command) counts even when the process survived it
         let v10 := if hasCrash oh || a.asked then b2s (c10 oh) else "na"
